@@ -1,13 +1,14 @@
 import Ruint.Model.Radix
 import Ruint.Model.Fmt
 import Ruint.Spec.Radix
+import Ruint.Spec.Fmt
 /-! Driver for C09: model column = `Ruint.Radix.*` / `Ruint.Fmt.*`; spec column = positional notation on `Nat`
 (predicates judging the implementation's actual output where the output is pinned by a characterisation,
 e.g. "the digits are `< base`, have no leading zero and denote the value"). -/
 open Ruint Ruint.Radix Ruint.Fmt
 
 namespace Ruint.DrvC09
-open Ruint.Spec.Radix
+open Ruint.Spec.Radix Ruint.Spec.Fmt
 
 /-! text I/O: hex of the UTF-8 bytes, `-` for empty -/
 
@@ -108,14 +109,6 @@ def strPred (bits radix : Nat) (src : List Char) (impl : String) : String :=
       let pre := (preChars.filterMap (fun c => match docClass radix c with | .digit d => some d | _ => none)).takeWhile (· < radix)
       pred (okChar || okDigit || (horner radix pre ≥ 2 ^ bits && impl = "err Base Overflow")) "an error naming an invalid character/digit expected"
 
-/-- `FromStr`: radix from the prefix `0x`/`0o`/`0b` (either case), else decimal. -/
-def sniff (src : List Char) : List Char × Nat :=
-  match src with
-  | '0' :: 'x' :: r | '0' :: 'X' :: r => (r, 16)
-  | '0' :: 'o' :: r | '0' :: 'O' :: r => (r, 8)
-  | '0' :: 'b' :: r | '0' :: 'B' :: r => (r, 2)
-  | _ => (src, 10)
-
 /-! format specs -/
 
 def isAlign (c : Char) : Bool := c = '<' || c = '^' || c = '>'
@@ -153,18 +146,6 @@ def parseSpec (cs : List Char) : Option (Trait × Spec) :=
     | ['X'] => some .upperHex
     | _ => none
   t.map fun t => (t, { fill := fill, align := align, plus := plus, alt := alt, zero := zero, width := width })
-
-/-- independent digit text: core's `Nat.toDigits`. -/
-def specFmt (t : Trait) (s : Spec) (v : Nat) : List Char :=
-  let (b, pfx, up) : Nat × String × Bool := match t with
-    | .display | .debug => (10, "", false)
-    | .binary => (2, "0b", false)
-    | .octal => (8, "0o", false)
-    | .lowerHex => (16, "0x", false)
-    | .upperHex => (16, "0x", true)
-  let ds := Nat.toDigits b v
-  let ds := if up then ds.map Char.toUpper else ds
-  padIntegral s pfx.toList ds
 
 def handle (args : List String) (impl : String) : String × String :=
   match args with
